@@ -71,8 +71,27 @@ def run(check):
       names = {x.id for x in ast.walk(n.iter) if isinstance(x, ast.Name)}
       if names & {'SCHEMAS', 'AGGREGATION_SCHEMAS'}:
         loops.append(n)
-  r_fm.require(len(loops) >= 2, 'expected loops over SCHEMAS and AGGREGATION_SCHEMAS in writeCachedDataPoints, found %d'
-               % len(loops))
+  nexts = []
+  for n in walk_no_nested(fn.node, include_self=False):
+    if isinstance(n, ast.Call) and isinstance(n.func, ast.Name) and n.func.id == 'next' and n.args and \
+       isinstance(n.args[0], ast.GeneratorExp) and \
+       {x.id for x in ast.walk(n.args[0]) if isinstance(x, ast.Name)} & {'SCHEMAS', 'AGGREGATION_SCHEMAS'}:
+      nexts.append(n)
+  r_fm.require(len(loops) + len(nexts) >= 2, 'expected first-match selections over SCHEMAS and AGGREGATION_SCHEMAS in '
+               'writeCachedDataPoints, found %d' % (len(loops) + len(nexts)))
+  for nx in nexts:
+    ge = nx.args[0]
+    gen = ge.generators[0]
+    label = unparse(gen.iter)
+    tv = gen.target.id if isinstance(gen.target, ast.Name) else None
+    matches = [c for i_ in gen.ifs for c in ast.walk(i_) if isinstance(c, ast.Call) and isinstance(c.func, ast.Attribute) and
+               c.func.attr in ('matches', 'test') and dotted(c.func.value) == tv]
+    if len(ge.generators) == 1 and _plain_iter(gen.iter) and tv and isinstance(ge.elt, ast.Name) and ge.elt.id == tv and \
+       len(gen.ifs) == 1 and matches and gen.ifs[0] is matches[0]:
+      r_fm.ok('next(<schemas of %s that match>) takes the first match in list order' % label, fn.loc(nx))
+    else:
+      r_fm.violate('selection over %s' % label, fn, nx, '`%s` is not "the first schema of the list, in its own order, that '
+                   'matches the metric"' % short(nx))
   for loop in loops:
     label = unparse(loop.iter)
     if not _plain_iter(loop.iter):
@@ -261,45 +280,57 @@ def run(check):
   creates = nodes_calling(g, lambda c: cx.calls_method(c, fn, DB, 'create'))
   sig = repo.cls('carbon.database', 'TimeSeriesDatabase').methods.get('create')
   r_ar.require(sig is not None and len(sig.params) == 5, 'TimeSeriesDatabase.create signature changed')
-  for s in creates:
-    call = [c for c in g.calls(s) if cx.calls_method(c, fn, DB, 'create')][0]
-    if len(call.args) != 4 or not all(isinstance(a, ast.Name) for a in call.args):
-      r_ar.cannot_decide('create() is not called with four plain variables: %s' % norm(call))
+  from ..paths import PathExec
+  from ..symeval import show
+
+  def first_of(t, lst):
+    """t denotes the first element of the schema list ``lst`` that matched (loop variable at the match, or next(<filter>))"""
+    def is_list(x):
+      while isinstance(x, tuple) and x[0] == 'call' and x[1] in ('list', 'tuple', 'iter') and len(x) == 3:
+        x = x[2]
+      return x == ('param', lst)
+    if not isinstance(t, tuple):
+      return False
+    if t[0] == 'elem' and is_list(t[1]):
+      return True
+    if t[0] == 'call' and t[1] == 'next' and len(t) in (3, 4) and isinstance(t[2], tuple) and t[2][0] == 'comp':
+      elt = t[2][1]
+      return isinstance(elt, tuple) and elt[0] == 'elem' and is_list(elt[1]) and (len(t) == 3 or t[3] == ('const', None))
+    return False
+
+  def archives_of(t, lst):
+    return isinstance(t, tuple) and t[0] == 'attr' and t[2] == 'archives' and first_of(t[1], lst)
+
+  px = PathExec(cx, fn, unroll=0, follow_exceptions=False)
+  judged = set()
+  for hit in px.run(creates):
+    call = [c for c in g.calls(hit.node) if cx.calls_method(c, fn, DB, 'create')][0]
+    if len(call.args) != 4:
+      r_ar.cannot_decide('create() is not called with four positional arguments: %s' % norm(call))
       continue
-    def source_loop(name):
-      out = set()
-      for d in reaching_defs(g, name, s):
-        if d is g.entry:
-          out.add('<undefined>')
-          continue
-        v = value_assigned(d, name)
-        if isinstance(v, ast.Constant) and v.value is None:
-          continue
-        lp = None
-        a = d.ast if d.kind != 'loop' else d.owner
-        p = a
-        while p is not None:
-          if isinstance(p, ast.For) and p in loops:
-            lp = unparse(p.iter)
-          p = getattr(p, '_parent', None)
-        out.add((lp, unparse(v[1]) if isinstance(v, tuple) and len(v) > 1 and isinstance(v[1], ast.AST) else
-                 (unparse(v) if isinstance(v, ast.AST) else str(v)), v[2] if isinstance(v, tuple) and len(v) > 2 else None))
-      return out
-    m_src = reaching_defs(g, call.args[0].id, s)
-    src1 = source_loop(call.args[1].id)
-    src2 = source_loop(call.args[2].id)
-    src3 = source_loop(call.args[3].id)
-    ok1 = src1 and all(isinstance(x, tuple) and x[0] == 'SCHEMAS' and 'getTuple' in x[1] for x in src1)
-    ok2 = src2 and all(isinstance(x, tuple) and x[0] == 'AGGREGATION_SCHEMAS' and x[2] == (0,) for x in src2)
-    ok3 = src3 and all(isinstance(x, tuple) and x[0] == 'AGGREGATION_SCHEMAS' and x[2] == (1,) for x in src3)
-    for ok, what, src in ((ok1, 'retentions <- first matching storage schema (getTuple of each archive)', src1),
-                          (ok2, 'xFilesFactor <- component 0 of the first matching aggregation schema', src2),
-                          (ok3, 'aggregationMethod <- component 1 of the first matching aggregation schema', src3)):
+    t1, t2, t3 = [hit.term(a, px) for a in call.args[1:]]
+    key = (id(call), t1, t2, t3)
+    if key in judged:
+      continue
+    judged.add(key)
+    ok1 = isinstance(t1, tuple) and t1[0] == 'comp' and not t1[2] and isinstance(t1[1], tuple) and t1[1][0] == 'meth' and \
+      t1[1][1] == 'getTuple' and len(t1[1]) == 3 and isinstance(t1[1][2], tuple) and t1[1][2][0] == 'elem' and \
+      archives_of(t1[1][2][1], 'SCHEMAS')
+
+    def comp_ok(t, idx):
+      if t == ('const', None):
+        return True
+      return isinstance(t, tuple) and t[0] in ('field', 'sub') and t[2] == idx and archives_of(t[1], 'AGGREGATION_SCHEMAS')
+    for ok, what, t in ((ok1, 'retentions <- first matching storage schema (getTuple of each archive)', t1),
+                        (comp_ok(t2, 0), 'xFilesFactor <- component 0 of the first matching aggregation schema', t2),
+                        (comp_ok(t3, 1), 'aggregationMethod <- component 1 of the first matching aggregation schema', t3)):
       if ok:
         r_ar.ok(what, fn.loc(call))
       else:
-        r_ar.violate(what.split(' <-')[0], fn, call, 'argument routing into database.create() is not `%s` (sources: %s)'
-                     % (what, sorted(map(str, src))))
+        r_ar.violate(what.split(' <-')[0], fn, call, 'argument routing into database.create() is not `%s` (on some path the '
+                     'argument is %s)' % (what, show(t)))
+  if px.truncated:
+    r_ar.cannot_decide('too many paths to database.create()')
   # producer of the aggregation tuple
   la = cx.fn('carbon.storage', 'loadAggregationSchemas')
   third = {c.args[2].id for c in walk_no_nested(la.node, include_self=False) if isinstance(c, ast.Call) and
